@@ -26,6 +26,7 @@ from .sym import (
     contains_sym,
     is_sym,
     real_z,
+    smax,
 )
 
 
@@ -310,6 +311,16 @@ def build_models(I):
     M[math.ceil] = m_ceil
     M[math.floor] = m_floor
     M[math.isfinite] = m_isfinite
+
+    def m_isclose(a, b, *, rel_tol=1e-09, abs_tol=0.0):
+        """math.isclose: |a - b| <= max(rel_tol * max(|a|, |b|), abs_tol)"""
+        if not sym_any(a, b, rel_tol, abs_tol):
+            return math.isclose(a, b, rel_tol=rel_tol, abs_tol=abs_tol)
+        d, ma, mb = m_fabs(a - b), m_fabs(a), m_fabs(b)
+        big = smax(ma, mb)
+        return d <= smax(rel_tol * big, abs_tol)
+
+    M[math.isclose] = m_isclose
 
     # ---------------------------------------------------------------- reflection
     def m_isinstance(v, T):
